@@ -31,18 +31,22 @@ def handleC16 (j : Json) : Except String Verdict := do
   let kw ← getStr i "kw"
   let vb ← getBytes i "v"
   let v := strOfBytes vb
-  let place := (getStr i "place").toOption.getD ""
+  let place0 := (getStr i "place").toOption.getD ""
+  let place := if place0.startsWith "bare-" then (place0.drop 5).toString else place0
+  let kwcase := place.startsWith "kwcase:"
   if let .ok p := getStr o "panic" then
     return .specfalse s!"panic:{kw}" s!"{k} {areaS}.{kw} value {v.quote}: {p}"
   let acc ← getBool o "accept"
   -- Spec-on-impl: accepted exactly when the value lies in the documented domain
   match documentedAt a kw place v with
   | some d =>
-    if d != acc then
+    -- a keyword written in another letter case may be refused as unknown; when it is taken, it is validated
+    if (if kwcase then acc && !d else d != acc) then
       return .specfalse s!"domain:{kw}" s!"{k}/{place} {areaS}.{kw} value {v.quote}: documented={d} implementation accept={acc} msg={(getStr o "msg").toOption.getD ""}"
   | none => pure ()
   -- model (regenerated guards + primitive models) vs implementation
-  if !(kw == "shape") then
+  if kwcase then pure ()
+  else if !(kw == "shape") then
     match accepts a kw v with
     | some m =>
       if m != acc then
